@@ -7,29 +7,38 @@ import (
 	"verifharness/core"
 )
 
-// replayers maps a property id to the function that re-executes a saved scenario of that
+// replayers maps "<property>[/<sub>]" to the function that re-executes a saved scenario of that
 // property without rapid (same executor, same oracle).
+var replayers = map[string]func(t *testing.T, path string){}
+
+func reg[S any](p core.Prop[S]) {
+	key := p.ID
+	if p.Sub != "" {
+		key += "/" + p.Sub
+	}
+	replayers[key] = func(t *testing.T, path string) { core.Replay(t, p, path) }
+}
+
 func init() {
+	reg(propC01)
+	reg(propC02)
+	reg(propC03)
+	reg(propC04)
+	reg(propC05)
+	reg(propC06)
+	reg(propC07)
+	reg(propC10)
+	reg(propC14)
+	reg(propC15Dec)
+	reg(propC15Grammar)
+	reg(propC16)
+	reg(propC17)
+	reg(propC18)
+	reg(propC19)
+	reg(propC20E2E)
 	for k, v := range extraReplayers {
 		replayers[k] = v
 	}
-}
-
-var replayers = map[string]func(t *testing.T, path string){
-	"C06":         func(t *testing.T, p string) { core.Replay(t, propC06, p) },
-	"C07":         func(t *testing.T, p string) { core.Replay(t, propC07, p) },
-	"C01":         func(t *testing.T, p string) { core.Replay(t, propC01, p) },
-	"C02":         func(t *testing.T, p string) { core.Replay(t, propC02, p) },
-	"C03":         func(t *testing.T, p string) { core.Replay(t, propC03, p) },
-	"C04":         func(t *testing.T, p string) { core.Replay(t, propC04, p) },
-	"C05":         func(t *testing.T, p string) { core.Replay(t, propC05, p) },
-	"C16":         func(t *testing.T, p string) { core.Replay(t, propC16, p) },
-	"C18":         func(t *testing.T, p string) { core.Replay(t, propC18, p) },
-	"C19":         func(t *testing.T, p string) { core.Replay(t, propC19, p) },
-	"C14":         func(t *testing.T, p string) { core.Replay(t, propC14, p) },
-	"C15/decoder": func(t *testing.T, p string) { core.Replay(t, propC15Dec, p) },
-	"C15/grammar": func(t *testing.T, p string) { core.Replay(t, propC15Grammar, p) },
-	"C17":         func(t *testing.T, p string) { core.Replay(t, propC17, p) },
 }
 
 // TestReplay re-executes $VERIF_REPLAY.
